@@ -6,12 +6,18 @@ Components (Comp):  IffCompile  `iffc <hex>` / `iffc10 <hex>`   compiled bytes +
 Oracles:            IffDenote   the value of every grammatical rendering of an AST equals its denotation
                                 and no input crashes (C11 / C05 on the implementation itself)
 
-The faithful model answers OOB where the C code runs out of its arrays (the real code then crashes:
-CRASH(-11), CRASH(-6) with the assert, or a sanitizer abort); norm() maps both to one token. The three
-known crash classes are tagged by witness()/judge():
-  iff-neg-depth   parenthesis depth negative somewhere (balance only checked at the end)   `)a(`
-  iff-not-paren   pre-pass cancels `not ... not` across a parenthesis, main pass does not     `not (not a)`
-  iff-rp-word     `)` directly followed by a word: the two passes cut the words differently   `()not not b`
+The model answers OOB where the C code would run out of its arrays (the real code then crashes:
+CRASH(-11), CRASH(-6) with the assert, or a sanitizer abort); norm() maps both to one token.
+
+History: three crash classes used to be known and tagged (iff-neg-depth `)a(`, iff-not-paren `not (not a)`,
+iff-rp-word `()not not b`). They were fixed in /repo commits 6f66310, 299b7de, 685c1af; the model follows the
+fixed code and is proved never to answer OOB (coq/Properties_C05_iff.v), and every string of the grammar is
+proved to evaluate to its denotation (coq/Properties_C11_iff.v). So NO input may crash any more and every
+grammatical rendering must evaluate to its denotation: witness()/judge() report any crash or wrong value
+with tag None (a new violation). The former crash witnesses are kept as explicit regression cases
+(REGRESS below) in every generator. The known lenient acceptance `a not and b` (compiles like
+`not a and b`; DESIGN section 7, Example C11_lenient_not_placement) is not a violation of either property
+and stays in FIXED as a model-vs-code case.
 """
 import itertools
 
@@ -72,6 +78,16 @@ def rand_ast(rng, n):
     return (rng.choice("AO"), rand_ast(rng, k), rand_ast(rng, n - 1 - k))
 
 
+def not_paren_ast(rng, depth):
+    """ASTs rich in `not` directly above `not`, `and`, `or` (rendered as `not (...)`, `not not x`)"""
+    if depth <= 0:
+        return ("F", rng.choice(FEATS))
+    r = rng.random()
+    if r < 0.55:
+        return ("N", not_paren_ast(rng, depth - (0 if rng.random() < 0.4 else 1)) if depth > 1 else ("N", ("F", rng.choice(FEATS))))
+    return (rng.choice("AO"), not_paren_ast(rng, depth - 1), not_paren_ast(rng, depth - 1))
+
+
 # renderings; lvl: 2 = expr, 1 = term, 0 = factor (RFC 7950 grammar, right recursive)
 def r_full(e):
     t = e[0]
@@ -110,85 +126,9 @@ def renderings(rng, e):
     ]
 
 
-# ------------------------------------------------------------------------------------------------
-# the side conditions of the partial theorems (coq/IfFeature.v: depth_nonneg, not_cancel_adjacent,
-# rp_sep), used to attribute a crash to one of the known defects
-# ------------------------------------------------------------------------------------------------
 def c_str(b):
     i = b.find(b"\0")
     return b if i < 0 else b[:i]
-
-
-def tokens(s):
-    """forward tokens of the C-string s: '(' ')' 'not' 'and' 'or' or ('F', word)"""
-    out = []
-    i = 0
-    n = len(s)
-    while i < n:
-        c = s[i]
-        if c == 40 or c == 41:
-            out.append(chr(c))
-            i += 1
-        elif is_space(c):
-            i += 1
-        else:
-            j = i
-            while j < n and s[j] not in (40, 41) and not is_space(s[j]):
-                j += 1
-            w = s[i:j]
-            if w in (b"not", b"and", b"or") and j < n and is_space(s[j]):
-                out.append(w.decode())
-            else:
-                out.append(("F", w))
-            i = j
-    return out
-
-
-def depth_nonneg(s):
-    d = 0
-    for c in s:
-        if c == 40:
-            d += 1
-        elif c == 41:
-            if d == 0:
-                return False
-            d -= 1
-    return True
-
-
-def not_cancel_adjacent(s):
-    ln = pp = False
-    for t in tokens(s):
-        if t == "not":
-            if ln:
-                if pp:
-                    return False
-                ln = pp = False
-            else:
-                ln, pp = True, False
-        elif t in ("(", ")"):
-            pp = True
-        else:
-            ln = pp = False
-    return True
-
-
-def rp_sep(s):
-    for i in range(len(s) - 1):
-        if s[i] == 41 and s[i + 1] not in (40, 41) and not is_space(s[i + 1]):
-            return False
-    return True
-
-
-def crash_tag(expr):
-    s = c_str(expr)
-    if not depth_nonneg(s):
-        return "iff-neg-depth"
-    if not not_cancel_adjacent(s):
-        return "iff-not-paren"
-    if not rp_sep(s):
-        return "iff-rp-word"
-    return None
 
 
 def is_crash(out):
@@ -215,6 +155,50 @@ FIXED = [b"", b"a", b" a", b"a ", b"not a", b"not not a", b"not not not a", b"no
          b"a and ) b (", b"not a not", b"not a not b", b"a not", b"a not b", b"a and not", b"not and a", b"not or",
          b"a or not and b", b"\xe2\x82\xac", b"a and \xff", b"not not", b"not not ", b"not not (a)", b"not (a) not",
          b"not not not not a", b"not not not not not a", b"(not not a)", b"not (not not not a)", b"not not (not not a)"]
+
+
+# the former crash witnesses (and close variants) of the three fixed defects, with what the fixed code must
+# answer: an AST (the string is in the grammar: every assignment must give the denotation), "E" (rejected with
+# LY_EVALID), or None (ungrammatical but accepted or LY_EINT: only `no crash` and model = code are checked)
+_A, _B = ("F", "a"), ("F", "b")
+REGRESS = [
+    # 299b7de: `not` before a parenthesis is not cancelled against a `not` inside it
+    (b"not (not a)", ("N", ("N", _A))),
+    (b"not ( not a )", ("N", ("N", _A))),
+    (b"not\t(\nnot a)", ("N", ("N", _A))),
+    (b"not ((not a))", ("N", ("N", _A))),
+    (b"not (not (not a))", ("N", ("N", ("N", _A)))),
+    (b"not not (not a)", ("N", ("N", ("N", _A)))),
+    (b"not (not not a)", ("N", ("N", ("N", _A)))),
+    (b"not (not a) and not (not b)", ("A", ("N", ("N", _A)), ("N", ("N", _B)))),
+    (b"a or (not (not b))", ("O", _A, ("N", ("N", _B)))),
+    (b"(not (not a)) or not (not (b))", ("O", ("N", ("N", _A)), ("N", ("N", _B)))),
+    (b"not (not a and b)", ("N", ("A", ("N", _A), _B))),
+    (b"not (a) not", "E"),
+    (b"not () not b", None),          # passes the pre-pass, main pass writes fewer records: LY_EINT
+    (b"not (a) not b", "E"),
+    # 6f66310: closing parenthesis before its opening one
+    (b")a(", "E"), (b"a )(", "E"), (b")(a", "E"), (b")(", "E"), (b")()(", "E"), (b"())(()", "E"),
+    (b"a and (b))(", "E"), (b"a and ) b (", "E"), (b"not)a(", "E"), (b"(a))((b)", "E"), (b"a) and (b", "E"),
+    # 685c1af: `)` directly followed by a word
+    (b"()not not b", None), (b"not not ()not not b", None), (b"(a and )not not b", None),     # lenient: compiles like `a and b`
+    (b"(a)and b", None), (b"(a )or b", None), (b"(a or b)c", "E"), (b"()not b", None),
+    (b"(a)not not b", "E"), (b"(a)b", "E"), (b"not (a)b", "E"), (b"(not a)and(not b)", None),
+]
+
+
+def regress_value_cases():
+    """iffv lines for REGRESS: all 8 assignments, with the expected answer where there is one"""
+    L = []
+    for s, exp in REGRESS:
+        for asg in ASSIGNMENTS:
+            if exp is None:
+                L.append("iffv\t%s\t%s" % (hexs(s), asg))
+            elif exp == "E":
+                L.append("iffv\t%s\t%s\tE" % (hexs(s), asg))
+            else:
+                L.append("iffv\t%s\t%s\t%s" % (hexs(s), asg, expected(exp, asg)))
+    return L
 
 
 def token_stream(rng, n, toks=MAL_TOK, maxlen=8):
@@ -268,9 +252,10 @@ class _IffBase(Comp):
         f = line.split("\t")
         expr = unhex(f[1])
         if impl_out.startswith("CRASH(") or impl_out == "TIMEOUT":
-            return (crash_tag(expr), "if-feature %r: %s" % (c_str(expr), impl_out))
+            # no crash class is known any more: always a new violation
+            return (None, "if-feature %r: %s" % (c_str(expr), impl_out))
         if f[0] == "iffv" and len(f) > 3 and impl_out != f[3]:
-            return ("iff-value", "if-feature %r under abc=%s evaluates to %s, denotation %s" % (expr, f[2], impl_out, f[3]))
+            return (None, "if-feature %r under abc=%s evaluates to %s, expected %s" % (expr, f[2], impl_out, f[3]))
         return None
 
 
@@ -280,7 +265,7 @@ class IffCompile(_IffBase):
 
     def gen(self, rng, tier, scale=1.0):
         L = []
-        for s in FIXED:
+        for s in FIXED + [r[0] for r in REGRESS]:
             L.append("iffc\t" + hexs(s))
             L.append("iffc10\t" + hexs(s))
         for e, r in ast_cases(rng, 7 if tier == "thorough" else 5):
@@ -305,7 +290,7 @@ class IffValue(_IffBase):
     name = "iffv"
 
     def gen(self, rng, tier, scale=1.0):
-        L = []
+        L = regress_value_cases()
         for e, r in ast_cases(rng, 7 if tier == "thorough" else 4):
             for asg in ASSIGNMENTS:
                 L.append("iffv\t%s\t%s\t%s" % (hexs(r), asg, expected(e, asg)))
@@ -323,15 +308,21 @@ class IffValue(_IffBase):
 
 class IffDenote:
     """C11/C05 on the implementation: every rendering of an AST (RFC 7950 grammar) compiles and evaluates to the
-    AST's denotation under every assignment; no input crashes the compiler"""
+    AST's denotation under every assignment; no input crashes the compiler (any crash or wrong value: tag None)"""
     name = "iff-denote"
     driver = "t_iff"
     quick_sanitize = False
 
     def gen(self, rng, tier, scale=1.0):
-        L = []
+        L = regress_value_cases()
         for e, r in ast_cases(rng, 7 if tier == "thorough" else 4):
             for asg in ASSIGNMENTS:
+                L.append("iffv\t%s\t%s\t%s" % (hexs(r), asg, expected(e, asg)))
+        # nested double negations across parentheses (the family of the fixed `not (not a)` defect)
+        for _ in range(int((2000 if tier == "thorough" else 100) * scale)):
+            e = not_paren_ast(rng, rng.randrange(1, 5))
+            r = rng.choice(renderings(rng, e)).encode()
+            for asg in rng.sample(ASSIGNMENTS, 3):
                 L.append("iffv\t%s\t%s\t%s" % (hexs(r), asg, expected(e, asg)))
         for s in FIXED + token_stream(rng, int((3000 if tier == "thorough" else 150) * scale), MAL_TOK, 8):
             if s:
@@ -342,7 +333,8 @@ class IffDenote:
         f = line.split("\t")
         expr = unhex(f[1])
         if out.startswith("CRASH(") or out == "TIMEOUT":
-            return (crash_tag(expr), "if-feature %r: %s" % (c_str(expr), out))
+            # formerly tagged iff-neg-depth / iff-not-paren / iff-rp-word (expected crashes); all fixed
+            return (None, "if-feature %r: %s" % (c_str(expr), out))
         if len(f) > 3 and out != f[3]:
-            return ("iff-value", "if-feature %r under abc=%s gives %s, denotation %s" % (expr, f[2], out, f[3]))
+            return (None, "if-feature %r under abc=%s gives %s, expected %s" % (expr, f[2], out, f[3]))
         return None
